@@ -116,6 +116,10 @@ def fd_env(exact_factorial=True, stub_make_exact=True, symkey_cache=True, names=
     proxy = NpProxy(algebraic_sqrt=True, **proxy_kw)
     del PINV_LOG[:]
     with installed(*[m[k] for k in names], np=proxy):
+        if not hasattr(fd, 'special'):
+            # the exact-arithmetic proofs take scipy.special.factorial by contract (exact k!); code that forms its factorials in floating
+            # point otherwise cannot be decided in exact arithmetic (every identity would fail by a rounding error): undecided, not refuted
+            raise NeedsConcrete('finite_difference does not use scipy.special.factorial: the exact-factorial dependency contract does not apply')
         fd.special.exact = exact_factorial
         old = fd._SQRT_J, fd.FD_RULES, fd.make_exact, sg.make_exact
         if 'fd' in names:
